@@ -485,31 +485,31 @@ func (c *caseWriter) Flush() {
 
 type env struct {
 	aftermath bool // the directory went through a failed cut (finding): later cases carry its shape
-	f     gallina.Flags
-	meta  *gallina.Meta
-	cf    *caseWriter
-	id    int
-	seen  map[string]bool
-	every bool // torn: every offset
+	f         gallina.Flags
+	meta      *gallina.Meta
+	cf        *caseWriter
+	id        int
+	seen      map[string]bool
+	every     bool // torn: every offset
 }
 
 type session struct {
-	e       *env
-	dir     string
-	m       *chunks.ChunkDiskMapper
-	qmax    int
-	initG   string
-	steps   []string
-	ops     []string
-	queued  []*written // pushed, not popped
-	cur     *written   // job at the worker
-	wk      int        // 0 idle, 1 at start, 2 at written
-	all     []*written // this session's writes
-	disk    []*written // completed writes of earlier sessions still on disk (write order)
-	big     map[chunks.ChunkDiskMapperRef]*rec
-	cbErr   bool
-	failed  bool
-	hasBig  bool
+	e      *env
+	dir    string
+	m      *chunks.ChunkDiskMapper
+	qmax   int
+	initG  string
+	steps  []string
+	ops    []string
+	queued []*written // pushed, not popped
+	cur    *written   // job at the worker
+	wk     int        // 0 idle, 1 at start, 2 at written
+	all    []*written // this session's writes
+	disk   []*written // completed writes of earlier sessions still on disk (write order)
+	big    map[chunks.ChunkDiskMapperRef]*rec
+	cbErr  bool
+	failed bool
+	hasBig bool
 }
 
 func (s *session) step(st, out, op string) {
@@ -1052,7 +1052,7 @@ func main() {
 		preamble: "From Coq Require Import List NArith ZArith Uint63.\nFrom Verif Require Import lib.Int64 lib.Bytes model.HeadChunks corr.CorrC25.\nImport ListNotations.\nOpen Scope N_scope.\n"}
 	e := &env{f: f, meta: meta, cf: cf, seen: map[string]bool{}, every: f.Tier == "thorough"}
 	e.corpus()
-	n := f.Count(30, 120)
+	n := f.Count(30, 160)
 	for i := 0; i < n; i++ {
 		e.randomScenario(f.Seed, i, 0)
 	}
